@@ -155,6 +155,8 @@ def check_segments(repo: Repo, run: Run, interp, ci) -> None:
     if len(vals) != 1:
         raise AnalysisError(f"parse_decomposed: {len(vals)} stores under 'segments' recognised (expected one)")
     v, cond = vals[0]
+    from .. import normal
+    v = normal.accum_to_comp(rec, v)       # a list filled by an append loop is the comprehension it equals
     while v.op == "call" and v.a[0].op == "builtin" and v.a[0].a[0] in ("list", "tuple") and len(v.a[1]) == 1:
         v = v.a[1][0]
     if not (v.op == "comp" and v.a[0] in ("list", "gen") and len(v.a[2]) == 1):
